@@ -225,6 +225,10 @@ def h_cover(s, r, c, sec):
 def items(tier, rng):
     out = []
     q = tier == "quick"
+    # no rows / no columns: the empty selection is the one exact cover
+    for (r0, c0) in ((0, 0), (0, 2), (2, 0)):
+        for fa in (False, True):
+            out.append({"name": "dlx_empty_%dx%d" % (r0, c0), "harness": "h_dlx", "params": {"r": r0, "c": c0, "sec": [], "find_all": fa, "names": False}})
     shapes = [(1, 1), (1, 2), (2, 1), (2, 2), (2, 3), (3, 2), (3, 3), (2, 4), (4, 2), (4, 3)]
     if not q:
         shapes += [(3, 4), (5, 3), (4, 4)]
